@@ -1818,6 +1818,17 @@ def option_and_then(ctx):
     return outs
 
 
+@contract(r'^tokio::macros::support::thread_rng_n$')
+def tokio_thread_rng_n(ctx):
+    """the random starting arm of tokio::select!: any value below n (environment randomness, not a guessed callee)"""
+    n = ctx.args[0]
+    if not isinstance(n, Int):
+        return NotImplemented
+    v = z3.BitVec(fresh_name('select_start'), n.bits)
+    ctx.ex.assume(ctx.st, z3.ULT(v, n.t))
+    return Int(v, n.bits, False)
+
+
 @contract(r'^(?:rand::)?thread_rng$|^rand::rngs::thread::thread_rng$')
 def rand_thread_rng(ctx):
     return Opaque('ThreadRng', 'rng')
